@@ -252,27 +252,42 @@ Section Rules.
     destruct r2 as [| |s2 p2 t2]; try reflexivity. rewrite H3 by lia. destruct r3; reflexivity.
   Qed.
 
+  (* results as functions of the partial results: a [match] written in a statement would copy its scrutinee
+     into the default branch, and nested alternatives would grow exponentially *)
+  Definition alt_result (r1 r2 : res rname) : res rname := match r1 with Fail => r2 | _ => r1 end.
+  Definition opt_result (s : str) (pos : nat) (r1 : res rname) : res rname :=
+    match r1 with Fail => Ok s pos [] | _ => r1 end.
+  Definition not_result (s : str) (pos : nat) (r1 : res rname) : res rname :=
+    match r1 with Fail => Ok s pos [] | OutOfFuel => OutOfFuel | Ok _ _ _ => Fail end.
+  Definition and_result (s : str) (pos : nat) (r1 : res rname) : res rname :=
+    match r1 with Ok _ _ _ => Ok s pos [] | _ => r1 end.
+  Definition skip_result (a : atomicity) (s : str) (pos : nat) (r1 : res rname) : res rname :=
+    match a with
+    | ANonAtomic => match r1 with Ok rest p _ => Ok rest p [] | _ => r1 end
+    | _ => Ok s pos []
+    end.
+
   Lemma runs_alt n1 n2 x y a s pos r1 r2 :
     Runs n1 x a s pos r1 ->
     match r1 with Fail => Runs n2 y a s pos r2 | _ => n2 = 0 /\ r2 = Fail end ->
-    Runs (S (Nat.max n1 n2)) (EAlt x y) a s pos (match r1 with Fail => r2 | r => r end).
+    Runs (S (Nat.max n1 n2)) (EAlt x y) a s pos (alt_result r1 r2).
   Proof.
     intros H1 H2 f Hf. destruct f as [|f]; [lia|]. cbn [run]. rewrite H1 by lia.
     destruct r1; try reflexivity. apply H2. lia.
   Qed.
 
   Lemma runs_opt n x a s pos r1 :
-    Runs n x a s pos r1 -> Runs (S n) (EOpt x) a s pos (match r1 with Fail => Ok s pos [] | r => r end).
+    Runs n x a s pos r1 -> Runs (S n) (EOpt x) a s pos (opt_result s pos r1).
   Proof. intros H f Hf. destruct f as [|f]; [lia|]. cbn [run]. rewrite H by lia. destruct r1; reflexivity. Qed.
 
   Lemma runs_not n x a s pos r1 :
     Runs n x a s pos r1 ->
-    Runs (S n) (ENot x) a s pos (match r1 with Fail => Ok s pos [] | OutOfFuel => OutOfFuel | Ok _ _ _ => Fail end).
+    Runs (S n) (ENot x) a s pos (not_result s pos r1).
   Proof. intros H f Hf. destruct f as [|f]; [lia|]. cbn [run]. rewrite H by lia. destruct r1; reflexivity. Qed.
 
   Lemma runs_and n x a s pos r1 :
     Runs n x a s pos r1 ->
-    Runs (S n) (EAnd x) a s pos (match r1 with Ok _ _ _ => Ok s pos [] | r => r end).
+    Runs (S n) (EAnd x) a s pos (and_result s pos r1).
   Proof. intros H f Hf. destruct f as [|f]; [lia|]. cbn [run]. rewrite H by lia. destruct r1; reflexivity. Qed.
 
   Definition rep_result (s : str) (pos : nat) (r1 r2 : res rname) : res rname :=
@@ -344,8 +359,7 @@ Section Rules.
 
   Lemma runs_skip n s pos r1 a :
     match a with ANonAtomic => Runs n (ERep (ECall (g_ws g))) AAtomic s pos r1 | _ => n = 0 /\ r1 = Fail end ->
-    Runs (S n) ESkip a s pos
-         (match a with ANonAtomic => match r1 with Ok rest p _ => Ok rest p [] | r => r end | _ => Ok s pos [] end).
+    Runs (S n) ESkip a s pos (skip_result a s pos r1).
   Proof.
     intros H f Hf. destruct f as [|f]; [lia|]. cbn [run]. destruct a; try reflexivity.
     rewrite H by lia. destruct r1; reflexivity.
@@ -355,3 +369,5 @@ End Rules.
 Arguments Runs {rname}.
 Arguments seq_result {rname}. Arguments rep_result {rname}. Arguments reptail_result {rname}.
 Arguments call_result {rname}. Arguments call_atomicity : simpl nomatch.
+Arguments alt_result {rname}. Arguments opt_result {rname}. Arguments not_result {rname}.
+Arguments and_result {rname}. Arguments skip_result {rname}.
